@@ -598,7 +598,7 @@ func TestTrees(t *testing.T) {
 			}
 			target := live[rapid.IntRange(0, len(live)-1).Draw(t, "target")]
 			kind := rapid.IntRange(0, 5).Draw(t, "fault")
-			placement := rapid.IntRange(0, 3).Draw(t, "placement")
+			placement := rapid.IntRange(0, 4).Draw(t, "placement")
 			// children of the target that are plain workers
 			var kids []inst
 			for _, i := range live {
@@ -656,6 +656,49 @@ func TestTrees(t *testing.T) {
 					}
 					w.hit(target.label, target.pid, kind)
 				}
+			case placement == 4 && len(kids) >= 2:
+				// a restart that waits for a busy sibling: one child is busy in a handler, another
+				// one is killed (the supervisor starts stopping the others and waits), and in that
+				// window the supervisor's own owner goes away
+				busy := kids[rapid.IntRange(0, len(kids)-1).Draw(t, "busy-sibling")]
+				var others []inst
+				for _, k := range kids {
+					if k.pid != busy.pid {
+						others = append(others, k)
+					}
+				}
+				victim := others[rapid.IntRange(0, len(others)-1).Draw(t, "dying-sibling")]
+				g := kit.Gate{Entered: make(chan struct{}), Open: make(chan struct{})}
+				if node.Send(busy.pid, g) != nil {
+					break
+				}
+				select {
+				case <-g.Entered:
+				case <-time.After(5 * time.Second):
+					close(g.Open)
+					continue
+				}
+				w.parked = append(w.parked, g.Open)
+				w.logf("busy(%s)", busy.label)
+				node.Kill(victim.pid)
+				w.logf("kill-child(%s)", victim.label)
+				kit.WaitUntil(2*time.Second, func() bool { return !w.alive(victim.pid) })
+				time.Sleep(time.Duration(rapid.IntRange(0, 2).Draw(t, "hold-ms")) * time.Millisecond)
+				owner, ownerKnown := gen.PID{}, false
+				for _, i := range live {
+					if i.pid == target.parent {
+						owner, ownerKnown = i.pid, true
+						w.hit(i.label, i.pid, kind)
+					}
+				}
+				if !ownerKnown {
+					w.hit(target.label, target.pid, kind)
+				}
+				_ = owner
+				nontrivial = true
+				time.Sleep(time.Duration(rapid.IntRange(0, 3).Draw(t, "hold2-ms")) * time.Millisecond)
+				close(g.Open)
+				w.parked = w.parked[:len(w.parked)-1]
 			case placement == 3 && len(kids) > 0:
 				// the restart of a child fails
 				kid := kids[rapid.IntRange(0, len(kids)-1).Draw(t, "failing-child")]
